@@ -14,6 +14,8 @@ import (
 	"github.com/ethereum/go-ethereum/params"
 	"github.com/holiman/uint256"
 	"pgregory.net/rapid"
+	"verif.local/kit/refkeccak"
+	"verif.local/kit/refsecp"
 	vs "verif.local/kit/stat"
 	"verif.local/kit/transcript"
 )
@@ -29,6 +31,48 @@ var (
 	c03N      = crypto.S256().Params().N
 	c03HalfN  = new(big.Int).Rsh(crypto.S256().Params().N, 1)
 	c03Two256 = new(big.Int).Lsh(big.NewInt(1), 256)
+)
+
+// c03RefSender is the sender an independent implementation (kit/refsecp: math/big
+// secp256k1, kit/refkeccak) derives for signature values (r, s, recid) over a signing
+// hash: address of Q = r^-1 (s*R - z*G). No low-s policy is applied by the reference.
+func c03RefSender(sighash common.Hash, r, s *big.Int, recid byte) (common.Address, bool) {
+	q, ok := refsecp.Recover(sighash[:], r, s, recid)
+	if !ok {
+		return common.Address{}, false
+	}
+	return common.BytesToAddress(refkeccak.Keccak256(refsecp.Uncompressed(q))[12:]), true
+}
+
+// c03VFor renders the V field of a tx of type typ for recovery id 0/1:
+// typed txs carry the id itself, unprotected legacy 27+id, protected legacy 35+2c+id.
+func c03VFor(typ byte, signedChain *big.Int, recid int) *big.Int {
+	switch {
+	case typ != LegacyTxType:
+		return big.NewInt(int64(recid))
+	case signedChain == nil:
+		return big.NewInt(int64(27 + recid))
+	default:
+		v := new(big.Int).Lsh(signedChain, 1)
+		return v.Add(v, big.NewInt(int64(35+recid)))
+	}
+}
+
+// boundary values of s around the EIP-2 limit floor(n/2): the low ones are ordinary
+// valid signatures (for the key the reference recovers), the high ones are malleable twins.
+var (
+	c03LowS = []struct {
+		name string
+		s    *big.Int
+	}{
+		{"s=n/2", c03HalfN}, {"s=n/2-1", new(big.Int).Sub(c03HalfN, big.NewInt(1))}, {"s=1", big.NewInt(1)}, {"s=2", big.NewInt(2)},
+	}
+	c03HighS = []struct {
+		name string
+		s    *big.Int
+	}{
+		{"s=n/2+1", new(big.Int).Add(c03HalfN, big.NewInt(1))}, {"s=n/2+2", new(big.Int).Add(c03HalfN, big.NewInt(2))}, {"s=n-1", new(big.Int).Sub(c03N, big.NewInt(1))},
+	}
 )
 
 func c03Pow2(k uint, add int64) *big.Int {
@@ -303,7 +347,7 @@ func c03WithRawSig(tx *Transaction, v, r, s *big.Int) (*Transaction, bool) {
 }
 
 // c03Fresh re-decodes the transaction from its canonical encoding (empty sender cache).
-func c03Fresh(rt *rapid.T, tx *Transaction) *Transaction {
+func c03Fresh(rt interface{ Fatalf(string, ...any) }, tx *Transaction) *Transaction {
 	b, err := tx.MarshalBinary()
 	if err != nil {
 		rt.Fatalf("MarshalBinary: %v", err)
@@ -523,10 +567,12 @@ func TestVerifC03SignRecover(t *testing.T) {
 		c.Class("cross-signer expect " + want)
 
 		// 6. strictness: mutate the valid signature, recover with the signer that made it
-		mut := rapid.IntRange(0, 5).Draw(rt, "strict")
+		mut := rapid.IntRange(0, 8).Draw(rt, "strict")
 		var mv, mr, ms *big.Int = V, R, S
 		mutClass := ""
 		mustFail := true
+		mustSucceed := false // Sender must return wantAddr
+		wantAddr := addr     // address expected when recovery succeeds
 		flipV := func(v *big.Int) *big.Int {
 			switch {
 			case typ != LegacyTxType: // 0 <-> 1
@@ -572,9 +618,40 @@ func TestVerifC03SignRecover(t *testing.T) {
 					mv = big.NewInt(rapid.SampledFrom([]int64{0, 1, 26, 29}).Draw(rt, "badVPlainVal"))
 				}
 			}
-		default:
+		case 5:
 			mutClass = "unmodified signature via raw fields" // sanity: still recovers
 			mustFail = false
+			mustSucceed = true
+		default:
+			// (r of the genuine signature, chosen s at the low-s limit, either recovery id): ECDSA
+			// recovery yields a key for any such triple, i.e. it IS a signature by that key. Low s
+			// (<= floor(n/2)) must recover exactly the address an independent implementation derives;
+			// s above the limit must be refused by every signer but Frontier.
+			recid := rapid.IntRange(0, 1).Draw(rt, "boundaryRecid")
+			mv = c03VFor(typ, signedChain, recid)
+			if mut != 8 {
+				b := c03LowS[0] // the limit itself: half of the low cases
+				if rapid.Bool().Draw(rt, "lowSOther") {
+					b = c03LowS[rapid.IntRange(1, len(c03LowS)-1).Draw(rt, "lowS")]
+				}
+				ms, mutClass = b.s, "boundary low "+b.name
+				mustFail, mustSucceed = false, true
+			} else {
+				b := c03HighS[0]
+				if rapid.Bool().Draw(rt, "highSOther") {
+					b = c03HighS[rapid.IntRange(1, len(c03HighS)-1).Draw(rt, "highS")]
+				}
+				ms, mutClass = b.s, "boundary high "+b.name
+				if sc.rank == c03Frontier {
+					mustFail = false // full range under Frontier rules: an error or the reference address
+					mutClass += " under frontier"
+				}
+			}
+			ref, ok := c03RefSender(hashBefore, mr, ms, byte(recid))
+			if !ok {
+				rt.Fatalf("VERIF-HARNESS-BUG: reference recovery failed for r=%x s=%x recid=%d hash=%x", mr, ms, recid, hashBefore)
+			}
+			wantAddr = ref
 		}
 		if mtx, ok := c03WithRawSig(signed, mv, mr, ms); ok {
 			if rapid.Bool().Draw(rt, "strictFresh") {
@@ -586,10 +663,10 @@ func TestVerifC03SignRecover(t *testing.T) {
 				if err == nil || got != (common.Address{}) {
 					rt.Fatalf("strictness (%s): Sender accepted v=%s r=%x s=%x -> (%x, %v) [type %d signer %s chain %s tx %x]", mutClass, mv, mr, ms, got, err, typ, sc.how, chain, bin)
 				}
-			} else if err == nil && got != addr {
-				rt.Fatalf("(%s): Sender returned a foreign address %x (want %x or an error) for v=%s r=%x s=%x", mutClass, got, addr, mv, mr, ms)
-			} else if mut == 5 && err != nil {
-				rt.Fatalf("unmodified signature re-injected through raw fields no longer recovers: %v", err)
+			} else if err == nil && got != wantAddr {
+				rt.Fatalf("(%s): Sender returned a foreign address %x (want %x) for v=%s r=%x s=%x [type %d signer %s chain %s sighash %x]", mutClass, got, wantAddr, mv, mr, ms, typ, sc.how, chain, hashBefore)
+			} else if mustSucceed && err != nil {
+				rt.Fatalf("(%s): Sender refused a valid signature v=%s r=%x s=%x: %v (want %x) [type %d signer %s chain %s sighash %x]", mutClass, mv, mr, ms, err, wantAddr, typ, sc.how, chain, hashBefore)
 			}
 			c.Class("strict: " + mutClass)
 		} else {
@@ -599,7 +676,7 @@ func TestVerifC03SignRecover(t *testing.T) {
 		if newer {
 			c.Class("signer newer than the type's fork")
 		}
-		c.NonTrivial(newer || mustFail || want != "addr", desc+"|"+mutClass+"|"+s2.how)
+		c.NonTrivial(newer || mustFail || mut >= 6 || want != "addr", desc+"|"+mutClass+"|"+s2.how)
 		c.Sample(true, func() any {
 			return map[string]any{"type": typ, "signer": sc.how, "chain": chain.String(), "key": fmt.Sprintf("%x", d), "tx": fmt.Sprintf("%x", bin),
 				"sender": fmt.Sprintf("%x", addr), "second_signer": s2.how, "expect_second": want, "strict": mutClass}
@@ -651,4 +728,124 @@ func TestVerifC03ChainIDZero(t *testing.T) {
 		c.Class(how)
 		c.NonTrivial(true, fmt.Sprintf("%s|%x|%x", how, d, h0))
 	})
+}
+
+// c03PlainTx is a fixed, draw-free body of the given type (body chain id = chain for typed txs).
+func c03PlainTx(typ byte, chain *big.Int, nonce uint64) TxData {
+	to := common.Address{0xaa, 19: byte(typ)}
+	al := AccessList{{Address: common.Address{0xbb}, StorageKeys: []common.Hash{{1}}}}
+	switch typ {
+	case LegacyTxType:
+		return &LegacyTx{Nonce: nonce, GasPrice: big.NewInt(3), Gas: 21000, To: &to, Value: big.NewInt(5), Data: []byte{1, 2, 3}}
+	case AccessListTxType:
+		return &AccessListTx{ChainID: chain, Nonce: nonce, GasPrice: big.NewInt(3), Gas: 21000, To: &to, Value: big.NewInt(5), AccessList: al}
+	case DynamicFeeTxType:
+		return &DynamicFeeTx{ChainID: chain, Nonce: nonce, GasTipCap: big.NewInt(2), GasFeeCap: big.NewInt(3), Gas: 21000, To: &to, Value: big.NewInt(5), AccessList: al}
+	case BlobTxType:
+		return &BlobTx{ChainID: uint256.MustFromBig(chain), Nonce: nonce, GasTipCap: uint256.NewInt(2), GasFeeCap: uint256.NewInt(3), Gas: 21000, To: to, Value: uint256.NewInt(5),
+			AccessList: al, BlobFeeCap: uint256.NewInt(7), BlobHashes: []common.Hash{{1, 2}}}
+	default:
+		return &SetCodeTx{ChainID: uint256.MustFromBig(chain), Nonce: nonce, GasTipCap: uint256.NewInt(2), GasFeeCap: uint256.NewInt(3), Gas: 21000, To: to, Value: uint256.NewInt(5),
+			AccessList: al, AuthList: []SetCodeAuthorization{{ChainID: *uint256.NewInt(1), Address: to, Nonce: 1}}}
+	}
+}
+
+// TestVerifC03SBoundaryGrid enumerates the low-s limit completely over the finite grid
+// tx type x signer fork (every fork that supports the type) x chain id x recovery id x
+// s in {1, 2, n/2-1, n/2 | n/2+1, n/2+2, n-1}: r comes from a genuine signature over the same
+// signing hash (so it is an x coordinate of a curve point), the signature is injected through
+// the public path Transaction.WithSignature(signer, r||s||recid) and recovered on a freshly
+// decoded copy. Low s: Sender must succeed and equal the address derived by kit/refsecp
+// (independent math/big recovery); high s: refused by every signer but Frontier (Frontier: an
+// error or the reference address). Key and nonce depend on the seed only.
+func TestVerifC03SBoundaryGrid(t *testing.T) {
+	vs.OnlyShard0(t)
+	st := vs.New("C03", t)
+	tr := transcript.Open(t, "transcript-boundary.txt")
+	seed := vs.Seed()
+	d := new(big.Int).SetBytes(refkeccak.Keccak256([]byte(fmt.Sprintf("c03-grid-%d", seed))))
+	d.Mod(d, new(big.Int).Sub(c03N, big.NewInt(1)))
+	d.Add(d, big.NewInt(1))
+	kb := make([]byte, 32)
+	d.FillBytes(kb)
+	key, err := crypto.ToECDSA(kb)
+	if err != nil {
+		t.Fatalf("VERIF-HARNESS-BUG: ToECDSA(%x): %v", d, err)
+	}
+	type sval struct {
+		name string
+		s    *big.Int
+		low  bool
+	}
+	var svals []sval
+	for _, b := range c03LowS {
+		svals = append(svals, sval{b.name, b.s, true})
+	}
+	for _, b := range c03HighS {
+		svals = append(svals, sval{b.name, b.s, false})
+	}
+	chains := []*big.Int{big.NewInt(1), big.NewInt(1337), c03Pow2(255, 3), c03HugeChainIDs[0]}
+	n := 0
+	for typ := byte(LegacyTxType); typ <= SetCodeTxType; typ++ {
+		for rank := c03MinRank(typ); rank <= c03Prague; rank++ {
+			for ci, chain := range chains {
+				if rank < c03EIP155 && ci > 0 {
+					continue // no chain id in the signer nor in the (legacy) tx
+				}
+				if chain.Cmp(c03Two256) >= 0 && typ > DynamicFeeTxType {
+					continue // uint256 chain id field
+				}
+				signer := c03Canonical(rank, chain)
+				unsigned := NewTx(c03PlainTx(typ, chain, seed+uint64(typ)))
+				h := signer.Hash(unsigned)
+				genuine, err := SignTx(unsigned, signer, key)
+				if err != nil {
+					t.Fatalf("SignTx(type %d, %s signer chain %s) failed: %v", typ, c03RankName[rank], chain, err)
+				}
+				_, r, _ := genuine.RawSignatureValues()
+				for recid := byte(0); recid < 2; recid++ {
+					for _, sv := range svals {
+						c := st.Case()
+						n++
+						sig := make([]byte, 65)
+						r.FillBytes(sig[:32])
+						sv.s.FillBytes(sig[32:64])
+						sig[64] = recid
+						where := fmt.Sprintf("type %d signer %s chain %s recid %d %s r=%x sighash=%x", typ, c03RankName[rank], chain, recid, sv.name, r, h)
+						ref, ok := c03RefSender(h, r, sv.s, recid)
+						if !ok {
+							t.Fatalf("VERIF-HARNESS-BUG: reference recovery failed [%s]", where)
+						}
+						tx, err := unsigned.WithSignature(signer, sig)
+						if err != nil {
+							t.Fatalf("WithSignature refused a 65-byte signature: %v [%s]", err, where)
+						}
+						if h2 := signer.Hash(tx); h2 != h {
+							t.Fatalf("signer.Hash changed by WithSignature: %x [%s]", h2, where)
+						}
+						got, err := Sender(signer, c03Fresh(t, tx))
+						tr.Linef("grid %s -> %s", where, c03SenderStr(got, err))
+						switch {
+						case sv.low:
+							if err != nil || got != ref {
+								t.Fatalf("low-s signature (s <= n/2): Sender = (%x, %v), want %x as derived by the reference recovery [%s]", got, err, ref, where)
+							}
+						case rank >= c03Homestead:
+							if err == nil || got != (common.Address{}) {
+								t.Fatalf("high-s signature accepted: Sender = (%x, %v) [%s]", got, err, where)
+							}
+						default:
+							if err == nil && got != ref {
+								t.Fatalf("frontier, high s: Sender = %x, want %x or an error [%s]", got, ref, where)
+							}
+						}
+						c.Class("grid " + sv.name)
+						c.Class(fmt.Sprintf("grid type%d/%s", typ, c03RankName[rank]))
+						c.NonTrivial(true, where)
+					}
+				}
+			}
+		}
+	}
+	st.Exhaustive(fmt.Sprintf("low-s limit: every tx type x supporting signer fork x chain id {1,1337,2^255+3,2^256+7} x recovery id x s in {1,2,n/2-1,n/2,n/2+1,n/2+2,n-1} (%d signatures, reference: kit/refsecp)", n))
 }
